@@ -823,11 +823,50 @@ def gen_hasattr(rng):
     attr = S(CALL) if rng.random() < 0.85 else S(rng.choice(["foo", "bar"]))
     e = ("ECall", "BHasattr", [a, attr])
     r = rng.random()
+    if r < 0.06:        # one and three arguments: TypeError in the original
+        e = ("ECall", "BHasattr", [attr])
+    elif r < 0.14:
+        e = ("ECall", "BHasattr", [a, S(rng.choice(["foo", "x"])), attr])
+    r = rng.random()
     if r < 0.1:
         e = ("ECall", "BHasattr", [e, S(CALL)])
     elif r < 0.2:
         e = ("EBool", True, "BAnd", e, ("ECall", "BCallable", [a]))
     return wrap_context(rng, e)
+
+
+def _level(e):
+    """binding strength of the node's own operator when it stands without parentheses"""
+    return {"EBool": 1 if e[0] == "EBool" and e[2] == "BOr" else 2, "ENot": 3, "ECmp": 4}.get(e[0], 5) if e[0] in ("EBool", "ENot", "ECmp") else 5
+
+
+def minimal_flags(e, need=0):
+    """the same tree printed with only the parentheses Python's precedences need (or < and < not < comparison < atom):
+    `need` is the weakest binding the position accepts"""
+    k = e[0]
+    m = minimal_flags
+    if k in ("EName", "EConst", "EType"):
+        return e
+    if k in ("ETuple", "EList", "ESet"):
+        return (k, [m(x) for x in e[1]])
+    if k == "EMeth":
+        return (k, e[1], e[2], [m(x) for x in e[3]])
+    if k == "ECall":
+        return (k, e[1], [m(x) for x in e[2]])
+    if k == "EBool":
+        lv = 1 if e[2] == "BOr" else 2
+        return (k, lv < need, e[2], m(e[3], lv), m(e[4], lv + 1))
+    if k == "ENot":
+        return (k, 3 < need, m(e[2], 3))
+    if k == "ECmp":
+        return (k, 4 < need, m(e[2], 5), [(o, m(b, 5)) for o, b in e[3]])
+    if k == "EListComp":
+        return (k, m(e[1]), e[2], m(e[3], 1))
+    if k == "EGen":
+        return (k, e[1], m(e[2]), e[3], m(e[4], 1))
+    if k == "EFloorDiv":
+        return (k, m(e[1], 5), m(e[2], 5))
+    return (k, e[1], m(e[2], 5))
 
 
 def gen_empty_seq(rng, top=False):
